@@ -187,7 +187,7 @@ def run(ck):
                            'removed) compared between the two compilations; names drawn so that referenced names sort before and after the '
                            'referencing ones, definitions in shuffled order.  COMPONENTS OF chains of 1..3 levels at any position, SEQUENCE and '
                            'SET: the field names of every type compared with the linker model and with the meaning of the notation (inside Coq)')
-    ck.assumptions += ['the full COMPONENTS OF statement is refuted (three known findings); only the single linking step is proved']
+    ck.assumptions += ['the full COMPONENTS OF statement is refuted (three known findings); the single linking step and the whole pass for chains of depth one with trailing COMPONENTS OF are proved']
     ck.prove('Props/C09.v', ['RasnV.Props.C09'], extra=['Corr/C09.vo'])
     pairs = pair_cases(ck)
     cases = []
